@@ -1839,6 +1839,11 @@ impl KyroDbService for KyroDBServiceImpl {
 
         let engine = &self.state.engine;
 
+        // Serialize with quota admission: an insert decides "already exists" and a delete
+        // decrements the tenant counter; interleaving the two makes the counter drift.
+        let quota_lock = self.tenant_quota_lock(tenant.as_ref());
+        let _quota_guard = quota_lock.as_ref().map(|lock| lock.lock());
+
         let metadata = match engine.get_metadata(global_doc_id) {
             Some(m) => m,
             None => {
@@ -2459,6 +2464,10 @@ impl KyroDbService for KyroDBServiceImpl {
         let req = request.into_inner();
 
         let engine = &self.state.engine;
+
+        // Same tenant quota lock as the insert paths (see `delete`).
+        let quota_lock = self.tenant_quota_lock(tenant.as_ref());
+        let _quota_guard = quota_lock.as_ref().map(|lock| lock.lock());
 
         let result = match req.delete_criteria {
             Some(batch_delete_request::DeleteCriteria::Ids(id_list)) => {
